@@ -182,8 +182,10 @@ OuterLoop:
 			for i, tx := range res.Data {
 				txSize := uint64(len(tx))
 				if size+txSize >= maxBytes {
-					// Push remaining transactions back to the queue
+					// Push remaining transactions back to the queue. The height is now
+					// fully consumed (released or queued), so the scan must not visit it again.
 					s.pendingTxs.Push(res.Data[i:], res.IDs[i:], res.Timestamp)
+					nextDAHeight++
 					break OuterLoop
 				}
 				resp.Batch.Transactions = append(resp.Batch.Transactions, tx)
